@@ -29,26 +29,33 @@ NAMES = dict(cg="ClassGroupsWrapper", rs="RandomSuperclassWrapper", swap="SwapLa
 
 
 # ---------------------------------------------------------------- harness dataset (no repository code except the base)
-def make_base(cls, C):
+def make_base(cls, C, store="list"):
+    import numpy as np
     import torch
     from kappadata.datasets.kd_dataset import KDDataset
 
     class LabDS(KDDataset):
-        """labels are Python ints, every accessor returns fresh objects"""
+        """labels are Python ints; store = "list": every accessor returns fresh objects; store = "tensor" / "numpy":
+        the bulk accessor hands out the dataset's own label storage (what kappadata.utils.getall_as_* accept)"""
 
         def __init__(self, classes, n_classes):
             super().__init__()
             self._cls = [int(c) for c in classes]
             self._C = int(n_classes)
+            self._store = None
+            if store == "tensor":
+                self._store = torch.tensor(self._cls, dtype=torch.long)
+            elif store == "numpy":
+                self._store = np.array(self._cls, dtype=np.int64)
 
         def __len__(self):
             return len(self._cls)
 
         def getitem_class(self, idx, ctx=None):
-            return int(self._cls[idx])
+            return int(self._cls[idx]) if self._store is None else int(self._store[int(idx)])
 
         def getall_class(self):
-            return [int(c) for c in self._cls]
+            return [int(c) for c in self._cls] if self._store is None else self._store
 
         def getshape_class(self):
             return (self._C,)
@@ -58,6 +65,20 @@ def make_base(cls, C):
             return torch.tensor([idx * 7 + 3, idx, self._cls[idx]], dtype=torch.float32)
 
     return LabDS(cls, C)
+
+
+def base_for(case):
+    """the wrapped dataset of a case; a["c0"]: it announces c0 classes while the wrapper is constructed"""
+    return make_base(case["cls"], case["a"].get("c0") or case["C"], store=case["a"].get("store", "list"))
+
+
+def built(case, base):
+    """construct the real wrapper; then the wrapped dataset's class count takes its final value (what the public
+    num_classes setter of KDRandomClassWrapper does underneath a long-lived wrapper)"""
+    w = build(case, base)
+    if case["a"].get("c0"):
+        base._C = int(case["C"])
+    return w
 
 
 def set_global_rng(s):
@@ -233,9 +254,9 @@ def observe(case, gseed, deadline=20):
     signal.alarm(deadline)
     try:
         set_global_rng(gseed)
-        base = make_base(case["cls"], case["C"])
+        base = base_for(case)
         try:
-            w = build(case, base)
+            w = built(case, base)
             dim, ln = get_dim(w), len(w)
         except Deadline:
             raise
@@ -253,7 +274,7 @@ def observe(case, gseed, deadline=20):
         # same arguments, other global generator state, other access order
         set_global_rng(gseed * 7919 + 104729)
         try:
-            w2 = build(case, make_base(case["cls"], case["C"]))
+            w2 = built(case, base_for(case))
             ev.append(sweep(w2, n, "rebuild", order=list(reversed(range(n))), dim=get_dim(w2)))
         except Deadline:
             raise
@@ -262,11 +283,20 @@ def observe(case, gseed, deadline=20):
         try:
             twin = make_base(case["cls"], case["C"])
             ids = eq_ids([w.getitem_x(i) for i in range(n)] + [twin.getitem_x(i) for i in range(n)])
-            ev.append(E("data", xw=ids[:n], xb=ids[n:], labs=base.getall_class(), form="int"))
+            ev.append(E("data", xw=ids[:n], xb=ids[n:], labs=[int(c) for c in base.getall_class()], form="int"))
         except Deadline:
             raise
         except Exception as e:
             ev.append(E("data", err=errname(e)))
+        # the same arguments once more over the SAME wrapped dataset object (after the first wrapper was built and read)
+        set_global_rng(gseed * 31 + 17)
+        try:
+            w3 = build(case, base)
+            ev.append(sweep(w3, n, "rebuild", dim=get_dim(w3)))
+        except Deadline:
+            raise
+        except Exception as e:
+            ev.append(E("rebuild", err=errname(e)))
         return ev, w
     except Deadline:
         return ev + [E("open" if not ev else "data", err="Diverge")], None
@@ -665,6 +695,14 @@ def run(prop, tier, seed):
 
     # ---- (T) traces from the real wrappers
     cases = small_grid(r, tier) + random_cases(r, 45 if quick else 500)
+    for c in cases:
+        # label storage handed out by the wrapped dataset's bulk accessor; class count changing under encoders
+        if r.random() < 0.3:
+            c["a"]["store"] = r.choice(["tensor", "numpy"])
+        if c["kind"] in ("oh", "ls") and r.random() < 0.4:
+            c["a"]["c0"] = r.choice([c["C"] + 1, c["C"] + 3, max(1, c["C"] - 1)])
+            if c["a"]["c0"] == c["C"]:
+                del c["a"]["c0"]
     traces, by_id = [], {}
     for tid, c in enumerate(cases, start=1):
         ev, w = observe(c, gseed=seed * 1000003 + tid)
@@ -672,7 +710,7 @@ def run(prop, tier, seed):
         cfg = dict(kind=c["kind"], sub=c["sub"], n=c["n"], C=c["C"], cls=c["cls"],
                    sn=a.get("sn", 0) if c["kind"] == "ls" else 0, sd=a.get("sd", 1) if c["kind"] == "ls" else 1)
         t = dict(id=tid, cfg=cfg, ev=ev)
-        complete = len(ev) == 6 and all(e["err"] == "" for e in ev) and ev[1]["form"] in ("int", "vec", "bin")
+        complete = len(ev) == 7 and all(e["err"] == "" for e in ev) and ev[1]["form"] in ("int", "vec", "bin")
         par = desc_par(c, w, ev) if complete else None
         if par is not None:
             t["cfg"]["par"] = par
